@@ -700,6 +700,21 @@ def p_uabs(ev, st, ctx):
     return T.uabs(ctx.args[0])
 
 
+@prim("re:core::num::<impl [iu](8|16|32|64|128|size)>::wrapping_sh[lr]")
+def p_wrapping_shift(ev, st, ctx):
+    a, k = ctx.args
+    left = (ctx.callee.get("rdef") or ctx.callee.get("def")).endswith("shl")
+    signed = "impl i" in (ctx.callee.get("rdef") or ctx.callee.get("def"))
+    if k.op == "const":
+        n = k.aux & (a.w - 1)
+        return T.shl(a, n) if left else (T.ashr(a, n) if signed else T.lshr(a, n))
+    if signed and not left:
+        raise Unsupported("wrapping_shr of a signed value by a variable amount")
+    amt = T.and_const(k, a.w - 1)
+    amt = T.trunc(amt, a.w) if amt.w > a.w else T.zext(amt, a.w)
+    return T.shl_var(a, amt) if left else T.lshr_var(a, amt)
+
+
 @prim("re:core::num::<impl i(8|16|32|64|128|size)>::abs")
 def p_abs(ev, st, ctx):
     x = ctx.args[0]
@@ -1032,6 +1047,22 @@ def p_arr_ne(ev, st, ctx):
     return T.bnot(eq_values(ev, st, ctx.args[0], ctx.args[1]))
 
 
+@prim("core::cmp::PartialEq::ne")
+def p_default_ne(ev, st, ctx):
+    """the provided method `ne`: !self.eq(other), with the type's own eq"""
+    c = ctx.callee
+    path = c.get("rpath") or c.get("path") or ""
+    if not path.endswith("::ne"):
+        raise Unsupported("PartialEq::ne of %s" % path)
+    want = path[:-4] + "::eq"
+    key = next((k for k, b in ev.bodies.items() if k == want or b["def"] == want), None)
+    if key is None:
+        # a derived / core impl: structural equality of the two values
+        return T.bnot(eq_values(ev, st, ctx.args[0], ctx.args[1]))
+    r = ev.call_body(st, key, list(ctx.args), ctx.fr.depth + 1 if ctx.fr is not None else 0)
+    return T.bnot(r)
+
+
 @prim("core::slice::<impl [T]>::len")
 def p_len(ev, st, ctx):
     r = as_slice(ev, st, ctx.args[0])
@@ -1156,6 +1187,42 @@ def p_identity(ev, st, ctx):
     return ctx.args[0]
 
 
+@prim("core::array::iter::<impl core::iter::IntoIterator for [T; N]>::into_iter")
+def p_array_into_iter(ev, st, ctx):
+    a = ctx.args[0]
+    if not isinstance(a, ArrV):
+        raise Unsupported("into_iter of %r" % (a,))
+    return PrimV("arrayiter", (a, 0))
+
+
+@prim("core::slice::<impl [T]>::contains")
+def p_slice_contains(ev, st, ctx):
+    r = as_slice(ev, st, ctx.args[0])
+    x = deref(ev, st, ctx.args[1])
+    s0, n = win_const(r)
+    arr = ev.load(st, Ref(r.obj, r.path))
+    return T.or1([eq_values(ev, st, arr.get(s0 + i), x) for i in range(n)])
+
+
+@prim("re:core::cmp::impls::<impl core::cmp::Ord for [iu](8|16|32|64|128|size)>::(min|max)", "re:<[iu](8|16|32|64|128|size) as core::cmp::Ord>::(min|max)",
+      "core::cmp::Ord::min", "core::cmp::Ord::max", "core::cmp::min", "core::cmp::max")
+def p_min_max(ev, st, ctx):
+    a, b = ctx.args
+    if not (isinstance(a, T.T) and isinstance(b, T.T)):
+        raise Unsupported("min/max of non-scalars")
+    name = (ctx.callee.get("rdef") or ctx.callee.get("def") or "")
+    signed = False
+    for t in ctx.callee.get("rtargs", []) + ctx.callee.get("targs", []) + [ctx.dest_ty]:
+        tt = ev.tys[t] if t is not None else None
+        if tt and tt["k"] == "int":
+            signed = tt["signed"]
+            break
+    lt = T.slt(a, b) if signed else T.ult(a, b)
+    if name.endswith("min"):
+        return T.ite(lt, a, b)
+    return T.ite(lt, b, a)
+
+
 def iter_next_value(ev, st, itv, elem_signed=False, depth=0):
     """-> (option value, new iterator value)"""
     if isinstance(itv, Ref):  # by_ref
@@ -1182,6 +1249,11 @@ def iter_next_value(ev, st, itv, elem_signed=False, depth=0):
             return NONE, itv
         nxt = T.ite(lt, T.add(a, T.const(1, a.w)), a)
         return EnumV(T.zext(lt, 64), {0: (), 1: (a,)}), Struct((nxt, b))
+    if isinstance(itv, PrimV) and itv.kind == "arrayiter":
+        arr, pos = itv.data
+        if pos < arr.n:
+            return some(arr.get(pos)), PrimV("arrayiter", (arr, pos + 1))
+        return NONE, itv
     if isinstance(itv, PrimV) and itv.kind == "map":
         inner, clo, signed = itv.data
         opt, new = iter_next_value(ev, st, inner, signed, depth)
@@ -1290,6 +1362,7 @@ def _range_signed(ev, ctx):
       "<core::slice::Iter<'a, T> as core::iter::Iterator>::next",
       "<core::slice::IterMut<'a, T> as core::iter::Iterator>::next",
       "<core::iter::Map<I, F> as core::iter::Iterator>::next",
+      "<core::array::IntoIter<T, N> as core::iter::Iterator>::next",
       "<core::iter::Zip<A, B> as core::iter::Iterator>::next",
       "<&mut I as core::iter::Iterator>::next",
       "<core::slice::ChunksExact<'a, T> as core::iter::Iterator>::next",
